@@ -318,6 +318,9 @@ def processLine (ln : Nat) (line : String) : M Unit := do
       let oth := match args with
         | [t] => st.slots.getD (tokNat t) none
         | _ => none
+      match oth with
+      | some q => IO.println s!"info {ln} emptyops {b2s p.isEmpty} {b2s q.isEmpty}"
+      | none => pure ()
       let pd : Pending := { ln := ln, slot := si, name := name, nOut := e.nOut, pieces := e.pieces,
                             cls := e.cls, before := some p, other := oth, modelled := e.modelled }
       modify fun st => { st with pending := some pd, lastOp := name }
@@ -406,7 +409,11 @@ def processLine (ln : Nat) (line : String) : M Unit := do
         else if ans == "1" then ok ln else skip ln "c03-indefinite"
       let withOther (t : String) (f : RefPoly → M Unit) : M Unit :=
         match other t with
-        | some q => if q.n == p.n then f q else skip ln "dimension"
+        | some q =>
+          if q.n == p.n then do
+            IO.println s!"info {ln} emptyops {b2s p.isEmpty} {b2s q.isEmpty}"
+            f q
+          else skip ln "dimension"
         | none => skip ln "unknown-slot"
       if c03 then
         -- I_x ⊆ latest reading of x, tightest reading of y ⊆ I_y: `contains` true implies tight(y) ⊆ latest(x)
